@@ -215,6 +215,19 @@ def gen_table(rng, tier, idx):
             h.can(u, t)
             if rng.chance(1, 3):
                 h.can(u, rng.choice(["ta", "tb", "tc"]))
+    # users whose ids differ only in letter case are different users: roles and grants of one never serve the other
+    for j, (r_lo, r_up) in enumerate([(["admin"], []), ([], ["admin"]), (["read-only"], ["write-only"]),
+                                      (["editor"], []), ([], ["read-only"]), (["write-only"], ["editor"])]):
+        lo, up = f"twin{idx}x{j}", f"Twin{idx}X{j}"
+        h.mk(lo, "k" + lo, [r for r in r_lo if r in ROLE_NAMES])
+        h.mk(up, "k" + up, [r for r in r_up if r in ROLE_NAMES])
+        if j % 2 == 1:
+            h.grant(lo, "ta", 1, 0)
+        if j % 3 == 2:
+            h.grant(up, "tb", 0, 1)
+        for u in (lo, up):
+            h.can(u, "ta")
+            h.can(u, "tb")
     return h
 
 
